@@ -767,6 +767,17 @@ def check_c11(res, ctx):
             oracle=lambda l, h: ("leak: " + h[-20:]) if not h.endswith("live=0") else None,
             rule="sequences of property additions (matching/mismatching row counts, fresh/duplicate/NUL-truncated names, up to 300 additions crossing several capacity growth steps), lookups by name with identity of the returned array, table-slice appends",
             nontrivial=lambda l: " 9 " in l or True, model_is_spec=True)
+    # appending to what the readers returned (their arrays are sized exactly, not by the capacity
+    # rule): table metadata gets K more columns, the first column slice K more properties, the
+    # slice K more column slices; then everything is written again
+    rl = []
+    for _ in range(150 if ctx.tier == "quick" else 3000):
+        p = gen.rtable(r, consistent=True, maxcols=9, small=True).canon() if r.random() < 0.7 else gen.rphys(r, maxcols=9)
+        rl.append("radd %s %d" % (bytes(p.encode().b).hex(), r.choice([1, 2, 3, 5, 9, 20])))
+    compare(res, ctx, rl, "c11 appending to reader-built metadata and slices",
+            oracle=lambda l, h: ("leak or double release: " + h[-20:]) if not h.endswith("live=0") else None,
+            rule="files with 0..9 columns and 0..3 properties per column read back, then 1..20 columns / properties / column slices appended to the structures the readers returned (every count at and between the capacity steps), written again",
+            nontrivial=lambda l: True, model_is_spec=True)
     # streams whose slice column count equals / differs from the metadata
     sl = []
     for _ in range(300 if ctx.tier == "quick" else 3000):
@@ -1404,6 +1415,33 @@ def check_c09(res, ctx):
         if first != ex:
             return "field %s at offset %d set to %d: first non-OK status is %d, the matching status is %d" % (f["kind"], f["off"], v, first, ex)
         return None
+    # the same corrupted files through the skip path (sbdf_ts_skip): the slice-level validations
+    # are separate code there; fields whose corruption the skip path cannot see (lengths inside
+    # a packed array, which it steps over by the byte-size header) are compared with the model only
+    skl = []
+    for l in lines:
+        f, v, ex = meta[l]
+        k2 = "fsk " + l.split()[1]
+        if k2 not in meta:
+            skl.append(k2)
+            meta[k2] = (f, v, ex if f["kind"] in ("magic0", "magic1", "secid", "tmdcount", "flag_tmd_value", "flag_tmd_dflt",
+                                                    "slicecols", "elemcount", "enc", "tid") else None)
+    if ctx.tier == "quick" and len(skl) > 6000:
+        skl = r.sample(skl, 6000)
+
+    def oracle_sk(l, h):
+        f, v, ex = meta[l]
+        if ex is None:
+            return None
+        sts = [int(x) for x in re.findall(r"(?:fh| tm| ts)=(-?\d+)", h)]
+        first = next((x for x in sts if x != 0), 0)
+        if first != ex:
+            return "field %s at offset %d set to %d, file skipped slice by slice: first non-OK status is %d, the matching status is %d" % (
+                f["kind"], f["off"], v, first, ex)
+        return None
+    compare(res, ctx, skl, "c09 field-wise corruption, skip path", oracle=oracle_sk,
+            rule="the corrupted files of the previous stage read with sbdf_ts_skip instead of sbdf_ts_read",
+            nontrivial=lambda l: True)
     compare(res, ctx, lines, "c09 field-wise corruption", oracle=oracle,
             rule="every structural field (marker bytes, section ids, counts, lengths incl. 7-bit, type ids, encoding ids, table-level presence flags) of generated files x every corruption class applicable to it; the field map comes from the reference encoder",
             nontrivial=lambda l: True)
